@@ -266,6 +266,19 @@ func c17Run(c *fw.Ctx, b fw.Batch) {
 				}
 				c17JudgeInput(c, "seed+tail", append(append([]byte{}, s...), tail...), 1536, []int{len(s)})
 			}
+			// one long tail (beyond 4096 and 8192) with sparse limits
+			if len(s) > 0 && len(s) < 1500 {
+				tail := make([]byte, 9000)
+				for i := range tail {
+					switch b.Idx % 3 {
+					case 0:
+						tail[i] = byte(r.Intn(256))
+					case 1:
+						tail[i] = byte('a' + r.Intn(26))
+					}
+				}
+				c17JudgeInput(c, "seed+long-tail", append(append([]byte{}, s...), tail...), 200, []int{len(s), 2000, 2048, 4096, 8192, 9000})
+			}
 			for k := 0; k < b.N && len(s) > 0; k++ {
 				m := append([]byte{}, s...)
 				if len(m) > 1500 {
@@ -292,7 +305,7 @@ func init() {
 	fw.Register(&fw.Prop{
 		ID:    "C17",
 		Level: "exploration",
-		Rule: "inputs = every seed (first 6000 bytes), seeds with random / text / zero / other-seed tails appended, seed mutants, and structured inputs whose deciding bytes sit at offsets given by length fields or at late fixed offsets (ID3v2 tags of 0-6000 bytes followed by MPEG / AAC / FLAC / junk, CRX with key+signature lengths to 6000 followed by zip or junk, multi-member tar archives from archive/tar with hostile member names, OLE with late CLSIDs, Matroska with a late DocType, hand-built zips, the TrueType -> Access hand-over, late sub-type markers, DICOM / MOBI / GIMP offsets). For each input the class is computed at EVERY limit up to a dense bound (1536 / 700), sparsely beyond, around 512 / 1024 / 1152 / 3072 / 4096 and around the structure's own offsets, and at 0 as the largest; once binary, every larger limit must be binary. " +
+		Rule: "inputs = every seed (first 6000 bytes), seeds with random / text / zero / other-seed tails appended (incl. one 9000-byte tail per seed swept sparsely past 4096 and 8192), seed mutants, and structured inputs whose deciding bytes sit at offsets given by length fields or at late fixed offsets (ID3v2 tags of 0-6000 bytes followed by MPEG / AAC / FLAC / junk, CRX with key+signature lengths to 6000 followed by zip or junk, multi-member tar archives from archive/tar with hostile member names, OLE with late CLSIDs, Matroska with a late DocType, hand-built zips, the TrueType -> Access hand-over, late sub-type markers, DICOM / MOBI / GIMP offsets). For each input the class is computed at EVERY limit up to a dense bound (1536 / 700), sparsely beyond, around 512 / 1024 / 1152 / 3072 / 4096 and around the structure's own offsets, and at 0 as the largest; once binary, every larger limit must be binary. " +
 			"non-trivial = the reported leaf changes at least twice along the limit sweep; distinct = distinct (first binary leaf, limit at which it first appeared, class sequence) tuples.",
 		Assumptions: []string{
 			"text = text/plain somewhere in the hierarchy; unknown = the parentless application/octet-stream root",
